@@ -166,7 +166,7 @@ INSERTS = {
               "  0.00          CL",
 }
 LINE_MODS = ("crlf", "trail", "cut54", "cut60", "cut66", "cut78", "alt_after",
-             "alt_end", "hetflip")
+             "alt_end", "hetflip", "serial5")
 RES_MODS = ("neg", "big", "icode", "icode_split")
 
 
@@ -293,6 +293,9 @@ def apply_program(lines, program):
                        and (lines[j + 1][21], lines[j + 1][22:27]) == key):
                     j += 1
                 at_res_end.setdefault(j, []).append(second)
+        elif what == "serial5":
+            # five-digit serial: the serial abuts the record name (HETATM10007)
+            lines[pos] = l[:6] + f"{10000 + pos:>5}" + l[11:]
         elif what == "hetflip":
             if l.startswith("ATOM  "):
                 lines[pos] = "HETATM" + l[6:]
